@@ -303,7 +303,9 @@ def c19_case(rng, exhaustive_points=True):
     nframes = len(base['bus'])
     own = rng.random() < 0.3          # from the running requester's own address with another pointer
     addrs = base['addrs']
-    isa = addrs[0] if own else next(x for x in range(1, 250) if x not in addrs)
+    free = [x for x in range(1, 250) if x not in addrs]
+    # other requesters: an ordinary address, address 0, the NULL address 254 (a node without an address may still ask), 253
+    isa = addrs[0] if own else rng.choice([x for x in [free[0], rng.choice(free), 0, 254, 254, 253] if x not in addrs])
     intr = dict(sa=isa, count=rng.choice([1, t.count, 5]), direct=rng.choice([0, 1]), cmd=rng.choice([READ, WRITE, READ, 0]),
                 pointer=(t.address ^ rng.choice([1, 0x100, 0xFFFFFFFF])) & 0xFFFFFFFF if (own or rng.random() < 0.7) else t.address,
                 level=rng.choice([7, 0xFFFF, 0]), lat=rng.choice([1, 300, 2000]))
@@ -328,6 +330,9 @@ def c19_case(rng, exhaustive_points=True):
                     bad.append(f"{where}: answer to the intruder is DM15 status {status}: {data}")
             if src == 1 and pf == 0xD7 and ps == isa and not own:
                 bad.append(f"{where}: DM16 data sent to the intruder")
+            if src == 1 and pf in (0xD8, 0xD7) and ps not in (addrs[0], isa):
+                bad.append(f"{where}: the server's answer {hex(cid)} {data} is addressed to {ps}, neither the running requester "
+                           f"{addrs[0]} nor the requester that sent the intruding request")
         if not own:
             # non-disturbance
             if run['result'] != base['result']:
